@@ -25,6 +25,9 @@ pub fn def_c05() -> PropDef {
 }
 
 fn run_c05(sim: &Sim, cfg: &RunCfg) -> RunOut {
+    // the property says "in bounded time" / "without blocking forever": a run that is still going
+    // after the step cap (orders of magnitude above any run on the unchanged tree) is a violation
+    sim.st().cap_clause = Some("livelock");
     sim.choose_policy();
     if cfg.index % 4 == 3 {
         if let Some(f) = super::DAEMON_C05.get() {
@@ -64,6 +67,9 @@ pub fn def_c06() -> PropDef {
 }
 
 fn run_c06(sim: &Sim, cfg: &RunCfg) -> RunOut {
+    // the property says "in bounded time" / "without blocking forever": a run that is still going
+    // after the step cap (orders of magnitude above any run on the unchanged tree) is a violation
+    sim.st().cap_clause = Some("livelock");
     sim.choose_policy();
     if cfg.index % 3 == 2 {
         let s = sim.with_w(|t| hostile::gen_hostile(t, true));
